@@ -160,5 +160,6 @@ func main() {
 			exit = code
 		}
 	}
+	profStop()
 	os.Exit(exit)
 }
